@@ -432,6 +432,37 @@ def allScopes (iv : Nat → List Nat) : Tr → List Nat → List (List Nat)
     bodyVis body (V ++ gvals iv g isG ins outs (bodyOuts body))
       :: (allScopes iv body (V ++ gvals iv g isG ins outs (bodyOuts body)) ++ allScopes iv rest V)
 
+/-! #### without the scoping rule: the values *recorded* in a scope
+
+On an ill-scoped model a value may be met in a graph although it was first met (and its name recorded) in another
+scope that is not visible there: it is then skipped (`seen_values`) and its name is *not* in the used-name set of
+the current scope.  `recVals S V vs` = the values recorded in the current scope after `vs` was processed: those in
+`V` plus the members of `vs` that had not been seen (`S`).  `recScopes` lists, for every graph under `t`, the values
+recorded in enclosing scopes before the graph was entered followed by the values first met in the graph itself. -/
+
+def recVals (S V vs : List Nat) : List Nat := V ++ vs.filter (fun v => !S.contains v)
+
+/-- the values recorded in the *current* scope after the items of `t` -/
+def bodyVisR (iv : Nat → List Nat) : Tr → List Nat → List Nat → List Nat
+  | .nil, _, V => V
+  | .node _ ins outs subs rest, S, V =>
+    bodyVisR iv rest (seenAfter iv subs (S ++ nodeVals ins outs))
+      (bodyVisR iv subs (S ++ nodeVals ins outs) (recVals S V (nodeVals ins outs)))
+  | .graph g isG ins outs body rest, S, V =>
+    bodyVisR iv rest (seenAfter iv body (S ++ gvals iv g isG ins outs (bodyOuts body))) V
+
+/-- for every graph under `t`: the values whose names the pass makes pairwise different whatever the scoping -/
+def recScopes (iv : Nat → List Nat) : Tr → List Nat → List Nat → List (List Nat)
+  | .nil, _, _ => []
+  | .node _ ins outs subs rest, S, V =>
+    recScopes iv subs (S ++ nodeVals ins outs) (recVals S V (nodeVals ins outs))
+      ++ recScopes iv rest (seenAfter iv subs (S ++ nodeVals ins outs))
+           (bodyVisR iv subs (S ++ nodeVals ins outs) (recVals S V (nodeVals ins outs)))
+  | .graph g isG ins outs body rest, S, V =>
+    bodyVisR iv body (S ++ gvals iv g isG ins outs (bodyOuts body)) (recVals S V (gvals iv g isG ins outs (bodyOuts body)))
+      :: (recScopes iv body (S ++ gvals iv g isG ins outs (bodyOuts body)) (recVals S V (gvals iv g isG ins outs (bodyOuts body)))
+          ++ recScopes iv rest (seenAfter iv body (S ++ gvals iv g isG ins outs (bodyOuts body))) V)
+
 /-- the nodes directly in the item list `t` (`bodyNodes subs = []` for a list of graph items) -/
 def bodyNodes : Tr → List Nat
   | .nil => []
